@@ -1,9 +1,10 @@
 (* C08 - Shard assignment is a pure, strand-symmetric function of the k-mer.  Statements only.
    [msp_score p perm rc] is the score closure of msp_sequence (permutation rank, min over both strands in rc
    mode; perm = None is the default table 0..4^p); [shard_of score p x] (Spec/ScanSpec.v) is the canonical
-   rank, as u32, of the first score-minimal p-mer of the k-mer x: a function of x alone. *)
+   rank of the first score-minimal p-mer of the k-mer x: a function of x alone.  Constants msp_* are pinned from
+   the source (currently msp_assert_shift = 32, msp_len_bits = 16, msp_bucket_bits = 32). *)
 From Coq Require Import NArith List Bool Arith.
-From DBG Require Import Spec.Dna Spec.ScanSpec Algo.Scan Algo.Msp Check.ScanCheck Proofs.ScanProofs Proofs.MspProofs.
+From DBG Require Import Gen.SourceConsts Spec.Dna Spec.ScanSpec Algo.Scan Algo.Msp Check.ScanCheck Proofs.ScanProofs Proofs.MspProofs.
 Import ListNotations.
 Open Scope nat_scope.
 
@@ -11,7 +12,7 @@ Open Scope nat_scope.
    at 0, consecutive pieces overlap by k-1, last ends at the read end, every k-mer start in exactly one piece),
    and its extensions are exactly the flanking bases, none at a read end. *)
 Theorem C08_piece_exact : forall max_len sq k p perm rcmode,
-  1 <= p -> p <= k -> k <= length sq -> (N.of_nat (length sq) < 2 ^ 32)%N -> (N.of_nat (2 * k - p) < 2 ^ 16)%N ->
+  1 <= p -> p <= k -> k <= length sq -> (N.of_nat (length sq) < 2 ^ msp_assert_shift)%N -> (N.of_nat (2 * k - p) < 2 ^ msp_len_bits)%N ->
   (N.of_nat (2 * k - p) <= max_len)%N -> wf_dna sq ->
   exists ivs, msp_sequence max_len sq k p perm rcmode = Some (map (msp_piece sq) ivs) /\
     scan_ok (msp_score p perm rcmode) sq k p (map iv_nat ivs) /\ covered_once sq k (map iv_nat ivs) /\
@@ -19,19 +20,19 @@ Theorem C08_piece_exact : forall max_len sq k p perm rcmode,
       let st := s_start (iv_nat x) in
       let ln := s_len (iv_nat x) in
       st + ln <= length sq /\
-      msp_piece sq x = ((bucket_of (iv_minimizer x) mod 2 ^ 32)%N, flank_exts sq st ln, sub st ln sq) /\
+      msp_piece sq x = ((bucket_of (iv_minimizer x) mod 2 ^ msp_bucket_bits)%N, flank_exts sq st ln, sub st ln sq) /\
       length (sub st ln sq) = ln.
 Proof. exact piece_exact. Qed.
 
 (* With an injective permutation table of 4^p entries (or the default one), the bucket of the piece covering
-   ANY occurrence i of a k-mer, in any read, equals shard_of (that k-mer). *)
+   ANY occurrence i of a k-mer, in any read, equals shard_of (that k-mer), narrowed as u32. *)
 Theorem C08_bucket_pure : forall max_len sq k p perm rcmode,
-  1 <= p -> p <= k -> k <= length sq -> (N.of_nat (length sq) < 2 ^ 32)%N -> (N.of_nat (2 * k - p) < 2 ^ 16)%N ->
+  1 <= p -> p <= k -> k <= length sq -> (N.of_nat (length sq) < 2 ^ msp_assert_shift)%N -> (N.of_nat (2 * k - p) < 2 ^ msp_len_bits)%N ->
   (N.of_nat (2 * k - p) <= max_len)%N -> wf_dna sq -> perm_ok p perm ->
   exists ivs, msp_sequence max_len sq k p perm rcmode = Some (map (msp_piece sq) ivs) /\
     covered_once sq k (map iv_nat ivs) /\
     forall x, In x ivs -> forall i, kmer_in k (iv_nat x) i ->
-      fst (fst (msp_piece sq x)) = shard_of (msp_score p perm rcmode) p (kmer_at k sq i).
+      fst (fst (msp_piece sq x)) = (shard_of (msp_score p perm rcmode) p (kmer_at k sq i) mod 2 ^ msp_bucket_bits)%N.
 Proof. exact bucket_pure. Qed.
 
 (* In reverse-complement mode the shard of a k-mer and of its reverse complement coincide. *)
